@@ -377,6 +377,8 @@ struct DomSim {
       {
         std::string tmp;
         ext_dump0.swap(tmp);
+        std::string tmp2;
+        key_cache.swap(tmp2);  // harness strings must not count in the heap balance below
       }
       if (kTrack) {
         ta::Ledger& L = ta::ledger();
@@ -385,6 +387,7 @@ struct DomSim {
       }
       size_t hb = heap_bytes();
       if (hb != heap0) ctx.violation("heap_imbalance", "dom_heap_imbalance", tr, "heap bytes %zu before the documents were created, %zu after they were destroyed", heap0, hb);
+      key_cache = "dead";
       return;
     }
     if ((int)op < NADDR * P_COUNT) {
@@ -542,7 +545,11 @@ struct DomSim {
         std::swap(*model_at(model, ix), *model_at(model, iy));
       }
     }
-    verify(ctx, tr);
+    // The oracle toggles lookup maps (DestroyMap + CreateMap rebuilds a map from scratch), which would repair a map
+    // that an earlier operation left inconsistent.  So the state key is taken BEFORE the oracle runs, and prefix
+    // replays (quiet) do not run the oracle at all: the explored states are exactly those the operations produce.
+    key_cache = key_now();
+    if (!ctx.quiet) verify(ctx, tr);
   }
 
   // toggling the lookup map on every object with distinct keys must not change anything observable
@@ -611,7 +618,9 @@ struct DomSim {
       for (auto it = n.Begin(); it != n.End(); ++it) hidden(*it, k);
       k += ")";
     } else if (n.IsObject()) {
-      snprintf(buf, sizeof buf, "O%zu%c(", n.Capacity(), n.getMap() ? 'M' : '-');
+      // the number of entries of the lookup map is part of the state: a map that has drifted from the member
+      // list (too many / too few entries) has different futures even while every lookup still answers correctly
+      snprintf(buf, sizeof buf, "O%zu%c%zu(", n.Capacity(), n.getMap() ? 'M' : '-', n.getMap() ? (size_t)n.getMap()->size() : (size_t)0);
       k += buf;
       for (auto it = n.MemberBegin(); it != n.MemberEnd(); ++it) {
         snprintf(buf, sizeof buf, "k%d", (int)it->name.GetType());
@@ -622,7 +631,9 @@ struct DomSim {
     } else
       k += ".";
   }
-  std::string key() const {
+  std::string key_cache;
+  std::string key() const { return key_cache.empty() ? key_now() : key_cache; }
+  std::string key_now() const {
     if (dead) return "dead";
     std::string k = ref::show(model) + "|";
     if (kTrack) {
